@@ -180,13 +180,19 @@ def solve_one(job):
         try:
             # the cheap abstractions get a short budget; e-matching and the full run the whole budget each (a proof found by
             # e-matching in a second must not be lost to a slow machine)
-            budget = timeout_ms if stage in ("full", "ematch") else min(timeout_ms, 3000)
+            budget = timeout_ms if stage == "full" else min(timeout_ms, 5000) if stage == "ematch" else min(timeout_ms, 3000)
             verdict, model, reason = _z3_check(smt, budget, opts)
             if stage == "ematch" and verdict != "unsat" and expect == "unsat":
-                # e-matching gives up ("incomplete quantifiers") within milliseconds depending on relevancy filtering and the
-                # instantiation order; a small portfolio of configurations makes the verdict independent of such accidents
-                for extra in EMATCH_PORTFOLIO:
-                    v2, m2, r2 = _z3_check(smt, min(timeout_ms, 6000), dict(opts, **extra))
+                # e-matching gives up ("incomplete quantifiers") within milliseconds, or wanders off, depending on relevancy filtering and the
+                # instantiation order; a small portfolio of configurations makes the verdict independent of such accidents. The default
+                # configuration gets a short first pass, then the portfolio, then the whole budget (a proof found by e-matching must not be lost to a slow machine)
+                for extra in EMATCH_PORTFOLIO + [None]:
+                    if extra is None:
+                        if timeout_ms <= 5000:
+                            break
+                        v2, m2, r2 = _z3_check(smt, timeout_ms, opts)
+                    else:
+                        v2, m2, r2 = _z3_check(smt, min(timeout_ms, 6000), dict(opts, **extra))
                     if v2 == "unsat":
                         verdict, model, reason = v2, m2, r2
                         break
